@@ -16,6 +16,8 @@ import tempfile
 import time
 
 VERIF = os.path.dirname(os.path.dirname(os.path.abspath(__file__)))
+# evidence/ and replays/ normally live in /verif; tools/seed_matrix.py redirects them when it runs checks against scratch worktrees
+OUT = os.environ.get("VERIF_OUT", VERIF)
 SPEC = os.path.join(VERIF, "spec")
 WORKROOT = os.path.join(VERIF, ".work")
 JAR = "/opt/veriftools/tla/tla2tools.jar:/opt/veriftools/tla/CommunityModules-deps.jar"
@@ -324,7 +326,7 @@ class Report:
             if all(str(keys.get(k)) == v for k, v in f["match"].items()):
                 self.known_hits[f["text"]] = self.known_hits.get(f["text"], 0) + 1
                 return False
-        d = os.path.join(VERIF, "replays", self.pid)
+        d = os.path.join(OUT, "replays", self.pid)
         os.makedirs(d, exist_ok=True)
         body = {"property": self.pid, "tier": self.tier, "seed": self.seed, "keys": keys, "detail": detail}
         h = hashlib.sha1(json.dumps(body, sort_keys=True, default=str).encode()).hexdigest()[:12]
@@ -352,8 +354,8 @@ class Report:
         ev = {"property_id": self.pid, "tier": self.tier, "seed": self.seed, "level": self.level,
               "coverage": cov, "assumptions": self.assumptions, "wall_s": round(wall, 2),
               "violations": len(self.violations)}
-        os.makedirs(os.path.join(VERIF, "evidence"), exist_ok=True)
-        with open(os.path.join(VERIF, "evidence", self.pid + ".json"), "w") as fh:
+        os.makedirs(os.path.join(OUT, "evidence"), exist_ok=True)
+        with open(os.path.join(OUT, "evidence", self.pid + ".json"), "w") as fh:
             json.dump(ev, fh, indent=1, default=str)
         for text, n in self.known_hits.items():
             print("KNOWN-FINDING: property=%s %s (%d cases)" % (self.pid, text, n))
